@@ -14,6 +14,8 @@ CLAIMS = {
          "Not decided: third-party decoders, goroutine leaks/channel protocol, reflect settability, stack depth; functions not listed in the evidence are not covered.", "6/C07"),
  "C10": ("Frame and freshness proofs for the array side of Merge: fields.append and the array strategies write only destination locations or fresh objects (frame obligation at every store and callee frame) and every stored element is a fresh copy.",
          "Dictionary side (mergeConfigDict), cfgSub.cpy and normalizeValue re-parenting not yet under contract; induction over depth stated.", "6/C10"),
+ "C14": ("Proof that every error leaving the getters, Child, Has, CountField and Remove is nil or a value whose dynamic type implements ucfg.Error (static type Error by typing; raw errors from value methods, strconv or errors.New do not satisfy it), and that the raise sites of the numeric/bool/duration conversions and of the typed getters build the error from exactly the value at fault (about(err) == val), so the message names that setting's path and source.",
+         "Trusted: the raise* constructors turn a value's context/metadata into path and source text (fmt); Merge/NewFrom/Unpack entry points and the validation/array-size raise sites are not yet under contract; that the context is the position is C15's invariant.", "6/C14"),
  "C15": ("Proof of the structural part of the representation invariant for copies: every value constructor stores the context it is given, every primitive cpy returns a fresh value of the same type with the requested context (refinement of the interface contract), and cfgSub.cpy returns a fresh node whose dictionary and list children are fresh copies whose parent is the new node and whose field names are those of the originals (loop invariants over a map range in arbitrary order and over the list).",
          "Known gaps (not claimed): delAt does not renumber, SetContext on a value receiver, FlattenedKeys, CompareConfigs and Path()/Parent() are not yet under contract; histories by stated induction.", "6/C15"),
  "C12": ("Data structure against abstract view: fields.get/set/del/setAt/delAt with full-view postconditions and frames, address parsing (parsePath/parsePathIdx/parseField: at least one field, one field per segment) and the walkers cfgPath.Has/GetValue, idxField.GetValue, proved for all inputs; induction over operation histories is stated.",
